@@ -237,6 +237,11 @@ func (res *Result) mismatch(c *Case, stream, model, impl string) {
 }
 
 func (res *Result) fail(c *Case, oracle, detail, sig string) {
+	if c != nil && c.Rec != nil && strings.HasPrefix(c.Rec.Op, "special:net.OpError(src,dst)") && strings.HasPrefix(sig, "C09:") {
+		// the input of known finding D16 (a *net.OpError with both addresses): one signature for
+		// what the verb-consistency oracle reports on it
+		sig = "C09:net.OpError-src-dst-arrow"
+	}
 	res.NFailures++
 	res.FailSigs[sig]++
 	if res.FailSigs[sig] <= 3 && len(res.Failures) < 60 {
